@@ -62,8 +62,12 @@ def expected(case, dense, full):
         farg, fvals, fvalid = Q.fact_arrays(case["fact"], N)
     exp_v, exp_m, mixed = Q.oracle(dense, full, case["agg"], N, fvals, fvalid, w, wvalid, case["ignore"])
     tol = 0.0
-    if case["fact"] is not None and not case["fact"]["dyadic"]:
-        total = float(numpy.abs(fvals * (w if fvals.ndim == 1 else w[:, None])).sum()) if N else 0.0
+    wrough = bool(case["weights"] and case["weights"].get("rough"))
+    if (case["fact"] is not None and not case["fact"]["dyadic"]) or wrough:
+        if fvals is None:
+            total = float(numpy.abs(w).sum()) if N else 0.0
+        else:
+            total = float(numpy.abs(fvals * (w if fvals.ndim == 1 else w[:, None])).sum()) if N else 0.0
         tol = 1e-9 * max(total, 1.0)
     return farg, warg, exp_v, exp_m, mixed, tol
 
@@ -113,7 +117,8 @@ def check(case, rec):
 
     w = case["weights"]
     rec.note("agg=" + agg, "nd=%d" % nd, "ignore=%s" % case["ignore"],
-             "weights=" + ("none" if w is None else w["kind"] + ("/" + w.get("form", "") if w["kind"] == "array" else "")),
+             "weights=" + ("none" if w is None else w["kind"] + ("/" + w.get("form", "") if w["kind"] == "array" else "")
+                           + ("/rough" if w is not None and w.get("rough") else "")),
              "rma=" + (case["rma"] if isinstance(case["rma"], str) else "tuple"))
     if case["fact"] is not None:
         f = case["fact"]
